@@ -257,7 +257,7 @@ func TestRegressDiamondConflicts(t *testing.T) {
 			if err := k.exec(opT{Kind: "absent", Path: ".conflicts", Name: "x"}, int(L), out); err != nil {
 				return err
 			}
-			return k.sweep(int(L))
+			return k.sweep(int(L), out)
 		})
 		if err != nil {
 			t.Fatalf("mode %+v: %v (hung=%v panicked=%v); bundle files %v", mode, err, hung, panicked, files.Paths())
